@@ -408,6 +408,44 @@ def check_wrapping_memos(ctx: Ctx) -> None:
 
     n = check_memo_keys(ctx, "R-MEMO", ("flowmark.linewrapping",))
     ctx.note("memo_stores_in_the_wrapping_layer", n)
+    # a function memoised with functools (decorator, or wrapped by hand: `fast = lru_cache(maxsize=256)(f)`) hands the very
+    # object it cached to every caller that hits: if that object is a list (wrapped lines that the sentence merge pops and
+    # edits), one caller's edit is what the next caller gets
+    prog, repo = ctx.prog, ctx.repo
+    n_wrapped = 0
+    for fi in repo.functions.values():
+        if not fi.module.name.startswith("flowmark.linewrapping") or isinstance(fi.node, ast.Lambda):
+            continue
+        cands: list[tuple[ast.AST, FuncInfo]] = []
+        if any(d.split("(")[0].split(".")[-1] in ("cache", "lru_cache") for d in fi.decorators):
+            cands.append((fi.node, fi))
+        for c in walk_no_nested(fi.node):
+            if isinstance(c, ast.Call) and c.args and isinstance(c.args[0], (ast.Name, ast.Attribute)):
+                f0 = c.func
+                inner = f0.func if isinstance(f0, ast.Call) else f0   # lru_cache(maxsize=..)(f)  /  cache(f)
+                nm = inner.id if isinstance(inner, ast.Name) else (inner.attr if isinstance(inner, ast.Attribute) else "")
+                if nm in ("cache", "lru_cache"):
+                    tgt = repo.resolve_expr(c.args[0], fi.module, fi)
+                    if isinstance(tgt, FuncInfo) and not isinstance(tgt.node, ast.Lambda):
+                        cands.append((c, tgt))
+        for site, tgt in cands:
+            n_wrapped += 1
+            ann = norm(tgt.node.returns) if getattr(tgt.node, "returns", None) is not None else ""
+            mutable = ann.split("[")[0].split(".")[-1] in ("list", "List", "dict", "Dict", "set", "Set", "deque")
+            if not mutable:
+                for r in prog.flow(tgt).cfg.returns():
+                    v = r.ast.value
+                    if isinstance(v, (ast.List, ast.ListComp, ast.Dict, ast.Set)):
+                        mutable = True
+                    elif isinstance(v, ast.Call):
+                        t2 = prog.resolve_call(tgt, v)
+                        if isinstance(t2, list) and len(t2) == 1 and not isinstance(t2[0].node, ast.Lambda) and getattr(t2[0].node, "returns", None) is not None \
+                                and norm(t2[0].node.returns).split("[")[0].split(".")[-1] in ("list", "List", "dict", "Dict", "set", "Set"):
+                            mutable = True
+            ctx.ob("R-MEMO", f"{fi.qual} :: memoised `{tgt.name}` returns an immutable value", not mutable,
+                   f"`{tgt.name}` is memoised and returns a mutable container (`{ann or 'list'}`): every hit hands out the same object, so a caller that "
+                   "pops from it or edits it in place changes what later calls with equal arguments get", where(fi, site))
+    ctx.note("memoised_functions_in_the_wrapping_layer", n_wrapped)
 
 
 # ------------------------------------------------------------------------------------- L5 L6 L7
